@@ -46,16 +46,7 @@ func retryOp(call *ssa.Call) *ssa.Function {
 	if len(call.Call.Args) < 1 {
 		return nil
 	}
-	v := stripConv(call.Call.Args[0])
-	switch x := v.(type) {
-	case *ssa.MakeClosure:
-		if f, ok := x.Fn.(*ssa.Function); ok {
-			return f
-		}
-	case *ssa.Function:
-		return x
-	}
-	return nil
+	return closureFn(call.Call.Args[0])
 }
 
 type RetrySite struct {
